@@ -152,7 +152,7 @@ var c17ScriptMutations atomic.Int64
 var c17Pads = []string{" ", "\t", "\n", "\r", "\x00"}
 
 func runC17(r *mc.Run) {
-	r.Rule = "deposit side: 11 relayer keys (6 ECDSA of both parities, 5 x-only) x 6 EVM addresses x 4 networks x versions 0/1 x 3 magic prefixes: address and data script from the real Query/DepositAddress handler and from the builders -> script via btcd -> the real verifier must accept for the generating (key, address) and reject for every other pair of the alphabet (full cross product), and must reject every single-byte substitution (255 values x every position), truncation and extension of the handed-out scripts for the generating pair; withdrawal side: hand-encoded p2pkh/p2sh/p2wpkh/p2wsh/p2tr addresses of 4 networks, pay-to-pubkey strings, every single-character substitution from a 4-symbol menu, blank / tab / newline / CR / NUL padding at either end, case change, extension, truncation, decoded for every network by the real DecodeBtcAddress and end-to-end through ProcessBridgeRequest"
+	r.Rule = "deposit side: 11 relayer keys (6 ECDSA of both parities, 5 x-only) x 6 EVM addresses x 4 networks x versions 0/1 x 3 magic prefixes: address and data script from the real Query/DepositAddress handler and from the builders -> script via btcd -> the real verifier must accept for the generating (key, address) and reject for every other pair of the alphabet (full cross product), and must reject every single-byte substitution (255 values x every position), truncation and extension of the handed-out scripts for the generating pair; system address: for every key the p2wpkh / p2tr script of the key is accepted by VerifySystemAddressScript and every single-byte substitution, truncation, extension, other key's script is refused; withdrawal side: hand-encoded p2pkh/p2sh/p2wpkh/p2wsh/p2tr addresses of 4 networks, pay-to-pubkey strings, every single-character substitution from a 4-symbol menu, blank / tab / newline / CR / NUL padding at either end, case change, extension, truncation, decoded for every network by the real DecodeBtcAddress and end-to-end through ProcessBridgeRequest"
 	r.Assumptions = []string{"btcd address/script encoding trusted as reference decoder for mutated strings", "hash functions trusted"}
 	keys, evms := c17Keys(6, 5), c17Evms(6)
 	if r.Thorough() {
@@ -316,6 +316,48 @@ func runC17(r *mc.Run) {
 			}
 		}
 	})
+
+	// ---- the relayer's own ("system") address: change outputs of withdrawal transactions and
+	// consolidation outputs must pay exactly the script of the current key - p2wpkh for an ECDSA
+	// key, p2tr (key path only) for an x-only key - and nothing else
+	var sysMut atomic.Int64
+	mc.Parallel(len(keys), runtime.NumCPU(), func(i int) {
+		k := keys[i]
+		genuine := sim.RefSystemScript(k)
+		c := c17Case{Part: "system-address", Key: pubHex(k.Public())}
+		r.Transitions.Add(1)
+		if !bitcointypes.VerifySystemAddressScript(k.Public(), genuine) {
+			r.Violate(mc.Violation{Class: "system-script-of-the-key-rejected", Msg: fmt.Sprintf("%x", genuine), Detail: c}, nil)
+		}
+		try := func(what string, sc []byte) {
+			sysMut.Add(1)
+			r.Transitions.Add(1)
+			if bitcointypes.VerifySystemAddressScript(k.Public(), sc) {
+				c.Other = fmt.Sprintf("%s: %x", what, sc)
+				r.Violate(mc.Violation{Class: "system-address-verifier-accepts-other-script:" + strings.SplitN(what, "[", 2)[0], Msg: "a script other than the key's own is accepted as the relayer's address", Detail: c}, nil)
+			}
+		}
+		for pos := range genuine {
+			for v := 0; v < 256; v++ {
+				if byte(v) != genuine[pos] {
+					m := append([]byte{}, genuine...)
+					m[pos] = byte(v)
+					try(fmt.Sprintf("script[%d]=%02x", pos, v), m)
+				}
+			}
+		}
+		for _, m := range [][]byte{genuine[:len(genuine)-1], genuine[1:], append(append([]byte{}, genuine...), 0), append([]byte{0}, genuine...), {}} {
+			try("script:length", append([]byte{}, m...))
+		}
+		// the other key type's construction over the same key material, and other keys' scripts
+		try("script:deposit-v0-of-the-key", sim.RefDepositScriptV0(k, evms[0]))
+		for _, k2 := range keys {
+			if pubHex(k2.Public()) != pubHex(k.Public()) {
+				try("script:of-another-key", sim.RefSystemScript(k2))
+			}
+		}
+	})
+	r.Extra["system_address_script_mutations"] = sysMut.Load()
 
 	// a key that is not on the curve must be refused by both sides
 	{
